@@ -284,7 +284,7 @@ Definition norm_q (q : Q) : pval :=
   if (Zpos (Qden r) =? 1)%Z then VInt (Qnum r) else VStr [(-1)%Z; Qnum r; Zpos (Qden r)].
 Definition norm (v : tval) : pval :=
   match v with
-  | TInt z => VInt z
+  | TInt z => norm_q (inject_Z z)            (* = VInt z *)
   | TFloat q => norm_q q
   | TInf p => VStr [(-2)%Z; if p then 1%Z else 0%Z]
   | TStr s => VStr s
